@@ -193,6 +193,10 @@ def run_property(modname, tier, seed, replay=None):
         streams = [s for s in streams if s.name == body["stream"]]
     stats = {}
     pool = None
+    try:  # import the library before forking / before any watchdog alarm can interrupt a first import
+        import deephyper.evaluator, deephyper.hpo, deephyper.stopper, deephyper.ensemble, deephyper.skopt  # noqa: F401
+    except Exception:
+        pass
     if any(s.parallel for s in streams) and not replay:
         # non-daemonic workers (a case may start child processes: managers, process pools)
         from concurrent.futures import ProcessPoolExecutor
